@@ -164,6 +164,55 @@ func runC02(p *core.Prog, r *core.Report, tier string) {
 		}
 	}
 
+	// ---- segment id recovery: a reopened WAL must continue numbering after the
+	// highest existing segment, or the next segment file is opened on top of a
+	// live one (O_CREATE|O_RDWR, no O_EXCL) and overwrites acknowledged entries.
+	if f := r.Need(p, tsm1, "WAL.Open"); f != nil {
+		const rule = "wal-segment-id-recovery"
+		g := f.Graph()
+		idField := core.LookupField(f.Pkg.Types, "WAL", "currentSegmentID")
+		r.Check(idField != nil, "anchor", "tsm1.WAL.currentSegmentID", "unresolved", f.Pos(), "field resolved")
+		assign := g.Assigning(idField)
+		// paths on which segment files exist: the true branch of `len(segments) > 0`
+		var starts []*core.Node
+		for _, n := range g.Nodes {
+			for _, e := range n.Succ {
+				if e.Cond != nil && e.Branch && strings.HasPrefix(core.ExprStr(e.Cond), "len(") && strings.HasSuffix(core.ExprStr(e.Cond), "> 0") {
+					starts = append(starts, e.To)
+				}
+			}
+		}
+		if r.Check(len(starts) >= 1, rule, f.String(), "existing-segments-branch:absent", f.Pos(), "branch handling existing segment files found") {
+			reach := g.Reach(starts, assign, nil)
+			bad := ""
+			for _, x := range g.SuccessExits() {
+				if reach[x] {
+					bad = g.Line(x)
+				}
+			}
+			r.Check(bad == "", rule, f.String(), "currentSegmentID-not-restored", f.Pos(),
+				"when segment files exist, every successful Open restores currentSegmentID (also when the last, empty segment is removed) "+bad)
+			// the restored value is the id parsed from the last segment's name
+			okSrc := false
+			for _, n := range g.Select(assign) {
+				if as, ok := n.N.(*ast.AssignStmt); ok && len(as.Rhs) == 1 {
+					if o := core.ObjOf(f.Info(), as.Rhs[0]); o != nil && assignedOnlyFrom(f, o, call("tsdb/engine/tsm1.idFromFileName")) {
+						okSrc = true
+					}
+				}
+			}
+			r.Check(okSrc, rule, f.String(), "currentSegmentID-source", f.Pos(), "restored id is the one parsed from the last segment file name")
+		}
+	}
+	if f := r.Need(p, tsm1, "WAL.newSegmentFile"); f != nil {
+		g := f.Graph()
+		idField := core.LookupField(f.Pkg.Types, "WAL", "currentSegmentID")
+		reach := g.ReachFromEntry(g.Assigning(idField), nil)
+		for _, n := range g.Select(g.Calling(call("os.OpenFile"))) {
+			r.Check(!reach[n], "wal-segment-id-recovery", f.String(), "id-advance<OpenFile", g.Line(n), "the segment id is advanced before the new segment file is created")
+		}
+	}
+
 	// ---- (5) torn tail truncation
 	walTruncate(p, r)
 }
@@ -518,6 +567,11 @@ func assignedOnlyFrom(f *core.Func, o types.Object, m core.Matcher) bool {
 			n++
 			if len(as.Lhs) == len(as.Rhs) {
 				if c, ok := ast.Unparen(as.Rhs[i]).(*ast.CallExpr); ok && m(f.Info(), c) {
+					good++
+				}
+			} else if len(as.Rhs) == 1 {
+				// v, err := call()
+				if c, ok := ast.Unparen(as.Rhs[0]).(*ast.CallExpr); ok && m(f.Info(), c) {
 					good++
 				}
 			}
